@@ -212,6 +212,7 @@ type harnessReport struct {
 	Bound         string         `json:"bound"`
 	Paths         int            `json:"paths"`
 	Branches      int            `json:"symbolic_branch_decisions"`
+	ChoiceForks   int            `json:"configuration_choice_forks"`
 	Stops         map[string]int `json:"path_stops"`
 	Obligations   int            `json:"obligations"`
 	Discharged    int            `json:"discharged"`
@@ -443,6 +444,7 @@ func CmdCheck(args []string) int {
 		rep.WallS = time.Since(th).Seconds()
 		rep.Paths = run.Stats.Paths
 		rep.Branches = run.Stats.Branches
+		rep.ChoiceForks = run.Stats.ChoiceForks
 		for k, v := range run.Stats.Stops {
 			rep.Stops[k] = v
 		}
@@ -714,7 +716,7 @@ func writeEvidence(prop string, tier int, seed int64, reports []harnessReport, f
 	assumptions = append(assumptions, chk.Assumptions...)
 	for _, r := range reports {
 		states += r.Paths
-		trans += r.Branches
+		trans += r.Branches + r.ChoiceForks
 		validated += r.Validated
 		obl += r.Obligations
 		dis += r.Discharged
@@ -771,7 +773,7 @@ func writeEvidence(prop string, tier int, seed int64, reports []harnessReport, f
 		"samples":                       samples,
 		"evaluations":                   max(obl, 1),
 		"distinct_nontrivial":           max(nontriv, 0),
-		"rule":                          "states = complete symbolic paths (each covers every input satisfying its path condition); transitions = symbolic branch decisions settled by the solver; evaluations = proof obligations (harness assertions and automatic panic-site obligations) posed as PC && !cond queries; distinct_nontrivial = obligations whose formula was not folded to a constant by the term simplifier",
+		"rule":                          "states = complete symbolic paths (each covers every input satisfying its path condition); transitions = symbolic branch decisions settled by the solver plus forks over configuration choices (vrt.Choice); evaluations = proof obligations (harness assertions and automatic panic-site obligations) posed as PC && !cond queries; distinct_nontrivial = obligations whose formula was not folded to a constant by the term simplifier",
 		"obligations":                   obl,
 		"discharged":                    dis,
 		"not_discharged":                notDischarged,
